@@ -1,7 +1,9 @@
 ------------------------------ MODULE Cbor_MC ------------------------------
 (* Constants for the exhaustive check of Cbor.tla.                           *)
-(*   wide   : every head-size boundary of integers and strings, shallow items *)
-(*   deep   : few leaves, nesting depth 3 (maps in arrays in tags ...)        *)
+(*   wide : every head-size boundary of integers, strings and tags, shallow   *)
+(*   keys : map key order over keys of every head size, two pairs per map     *)
+(*   deep : few leaves, nesting depth 3 (maps in arrays in tags ...)          *)
+(*   long : strings of 255/256 bytes (two-byte length heads)                  *)
 EXTENDS Cbor
 
 FF(k) == [i \in 1..k |-> 255]
@@ -14,10 +16,18 @@ Mags == {<<>>, <<1>>, <<23>>, <<24>>, FF(1), Pow(1), FF(2), Pow(2), FF(4), Pow(4
 
 \* -1-n for the same magnitudes: -1, -2, -24, -25, -256, -257, ..., -2^63, -2^63-1, -2^64
 WideInts == {UInt(m) : m \in Mags} \cup {NInt(m) : m \in Mags}
-WideStrs == {BStr(<<>>), BStr(<<0>>), BStr(Txt(23, 0)), BStr(Txt(24, 0)), BStr(Txt(255, 0)), BStr(Txt(256, 0)),
-             TStr(<<>>), TStr(<<97>>), TStr(<<98>>), TStr(<<97, 97>>), TStr(Txt(23, 1)), TStr(Txt(24, 1)),
-             TStr(Txt(255, 1)), TStr(Txt(256, 1))}
+WideStrs == {BStr(<<>>), BStr(<<0>>), BStr(Txt(23, 0)), BStr(Txt(24, 0)),
+             TStr(<<>>), TStr(<<97>>), TStr(<<98>>), TStr(<<97, 97>>), TStr(Txt(23, 1)), TStr(Txt(24, 1))}
 WideTags == {<<>>, <<1>>, <<18>>, <<24>>, Pow(1), FF(8)}
+
+\* map key order: keys of every head size and both string kinds, two pairs per map
+KeyInts == {UInt(<<>>), UInt(<<23>>), UInt(<<24>>), UInt(Pow(1)), UInt(Pow(2)), UInt(Pow(4)),
+            NInt(<<>>), NInt(<<24>>), NInt(Pow(1))}
+KeyStrs == {TStr(<<>>), TStr(<<97>>), TStr(<<98>>), TStr(<<97, 97>>)}
+
+\* two-byte length heads: strings of 255 and 256 bytes (TLC is slow on long sequences, so few items)
+LongInts == {UInt(<<>>)}
+LongStrs == {BStr(Txt(255, 0)), BStr(Txt(256, 0)), TStr(Txt(255, 1)), TStr(Txt(256, 1))}
 
 DeepInts == {UInt(<<>>), UInt(<<24>>), NInt(<<>>), NInt(Pow(1))}
 DeepStrs == {BStr(<<1>>), TStr(<<97>>), TStr(<<>>)}
